@@ -4,8 +4,10 @@ set -u
 patch=$(realpath "$1"); id=$2; tier=${3:-quick}
 cd /repo || exit 2
 if ! git diff --quiet; then echo "repo dirty"; exit 2; fi
+# evidence written while a mutant is applied must never be committed: keep the clean one
+ev=/verif/evidence/$id.json; [ -f $ev ] && cp $ev /tmp/evidence-$id.keep
 git apply "$patch" || { echo "patch does not apply"; exit 2; }
-trap 'git -C /repo checkout -- . ; git -C /repo clean -fdq' EXIT
+trap 'git -C /repo checkout -- . ; git -C /repo clean -fdq; [ -f /tmp/evidence-$id.keep ] && mv /tmp/evidence-$id.keep $ev' EXIT
 ( cd /repo && GOFLAGS=-mod=mod GOPROXY=off go build ./... ) || { echo "MUTANT DOES NOT COMPILE"; exit 2; }
 cd /verif && ./check "$id" --tier "$tier" | grep -v '^\s*$' | cut -c1-600 | tail -${MUT_TAIL:-6}
 echo "check rc=${PIPESTATUS[0]}"
